@@ -332,7 +332,13 @@ pub fn replay(inp: &str, outp: &str, seed: u64, maxd_model: u64) -> Result<()> {
         .enumerate()
         .map(|(i, c)| {
             let mut rng = StdRng::seed_from_u64(seed.wrapping_mul(1_000_003).wrapping_add(i as u64));
-            let wd = world(&mut rng);
+            let mut wd = world(&mut rng);
+            // the alias limb pair (same 64-bit count, limbs outside 32 bits) stands for a count MISMATCH between the two
+            // hashes; where the model uses one count for both, the count must be a well-formed one (in-range limbs) -
+            // otherwise the circuit's limb range check, which the model's count domain does not contain, rejects it
+            if c["ncnt"] == c["lcnt"] && wd.tc[1].iter().any(|x| *x > u32::MAX as u64) {
+                wd.tc[1] = [wd.tc[0][0] ^ 1, wd.tc[0][1]];
+            }
             let b = |k: &str| c[k].as_u64().unwrap() == 1;
             let s = |k: &str| c[k].as_str().unwrap().to_string();
             let (asset, input, o1, o2, fee, akind) = arith(&mut rng, s("arith") == "ok", b("o1z"), b("o2z"));
